@@ -482,6 +482,11 @@ func runC08(c *Ctx) {
 
 	// ---------- error discipline (E8)
 	errDisciplineFor(c, "C08")
+
+	// ---------- R08.8 no answer without asking the state
+	c.Rule("R08.8", "E1", "StateAdapter mutating methods: a success return is reachable only after the owned state's operation was called", 8)
+	delegateBeforeSuccess(c, "R08.8")
+
 }
 
 // sliceContainsCall reports whether slice value v (a variadic argument) certainly contains, on
@@ -529,4 +534,20 @@ func (p *Program) sliceContainsCall(v ssa.Value, callee string, depth int) bool 
 	}
 
 	return false
+}
+
+// delegateBeforeSuccess: every mutating method of the controller state adapter reports success only
+// after the corresponding operation of the owned state was called: no fast path answers for the state.
+func delegateBeforeSuccess(c *Ctx, rule string) {
+	p := c.P
+
+	for _, name := range []string{"Create", "Update", "Modify", "ModifyWithResult", "Teardown", "Destroy", "AddFinalizer", "RemoveFinalizer"} {
+		f := p.Method(pkgCtrlState, "StateAdapter", name)
+		if !c.NeedFunc(rule, f, "StateAdapter."+name) {
+			continue
+		}
+
+		n := f.Signature.Results().Len()
+		c.MustCut(rule, "success ⊣ {owned-state operation called}", f, ReturnsNilConst(n-1), CutSpec{Nodes: p.CallTo("(*pkg/state/owned.State).*")}, 0)
+	}
 }
